@@ -82,6 +82,11 @@ def module_nested(non_local=True):
         brk = tl.add_op(ops.Tag(1, tys.Sum([[B], [B, B]])), bi, bi)    # just_outputs longer than just_inputs
         tl.set_loop_outputs(brk, qq)
     *_, last = tl                                                   # the linear value is the LAST loop output
+    # container nodes carry metadata and state-order edges of their own
+    for j, nd in enumerate([inner.parent_node, cond.parent_node, tl.parent_node]):
+        f.hugr[nd].metadata[f"container{j}"] = {"idx": j}
+    f.add_state_order(inner.parent_node, cond.parent_node)
+    f.add_state_order(cond.parent_node, tl.parent_node)
     f.set_outputs(tl[0], last)
     return m
 
@@ -105,6 +110,10 @@ def module_cfg(dom_edge=True):
                 x = blk.add_op(cust("plain", [Q], [Q]), qb)
             blk.set_single_succ_outputs(x[0])
         cfg.branch_exit(blk[0])
+    k = f.load(val.TRUE)
+    f.add_state_order(k, cfg.parent_node)
+    f.hugr[cfg.parent_node].metadata["cfg"] = "meta"
+    f.hugr[blk.parent_node].metadata["block"] = ["meta"]
     f.set_outputs(cfg[0])
     return m
 
